@@ -29,6 +29,13 @@ pub const CLASS_TABLE: &[(char, Class)] = &[
     ('\u{a1}', Class::Narrow),
     ('\u{e9}', Class::Narrow),
     ('\u{ff}', Class::Narrow),
+    ('\u{fe}', Class::Narrow),
+    ('\u{a0}', Class::Narrow),
+    ('\u{100}', Class::Narrow),
+    ('\u{903}', Class::Narrow),  // spacing marks: width 1, so they occupy a cell
+    ('\u{93e}', Class::Narrow),
+    ('\u{bbf}', Class::Narrow),
+    ('\u{101}', Class::Narrow),
     ('\u{416}', Class::Narrow),  // Ж
     ('\u{3a9}', Class::Narrow),  // Ω
     ('\u{2502}', Class::Narrow), // │
